@@ -614,6 +614,36 @@ theorem fill_update_sets_net (e : Eng) (i : Nat) (side : Side) (q : Rat) (s : In
     | none => simp [applyUpdate, modifyInstr_getElem?, h]
     | some r => obtain ⟨s', q'⟩ := r; simp [applyUpdate, modifyInstr_getElem?, h]
 
+/-- The closing order of an instrument whose position is the result of ANY history of positive fills from flat:
+a long net (positive signed sum) is closed by a SELL of exactly the sum, a short net by a BUY of its absolute value,
+and a history that nets to zero produces no closing order for that instrument at all. -/
+theorem close_request_of_net_history (e : Eng) (f : Filter) (i : Nat) (s : Instr) (p : Rat)
+    (fills : List (Side × Rat)) (hq : ∀ g ∈ fills, 0 < g.2)
+    (hi : e.instruments[i]? = some s) (hm : f.matches i s = true) (hp : s.price = some p)
+    (hpos : s.position = netAll fills none) :
+    (0 < signedSum fills → (⟨⟨s.exchange, i, closeCid i⟩, .sell, p, signedSum fills⟩ : OpenReq) ∈ closeRequests e f) ∧
+    (signedSum fills < 0 → (⟨⟨s.exchange, i, closeCid i⟩, .buy, p, -signedSum fills⟩ : OpenReq) ∈ closeRequests e f) ∧
+    (signedSum fills = 0 → ∀ r ∈ closeRequests e f, r.key.instrument ≠ i) := by
+  have hnet := net_position_after_fills fills hq
+  refine ⟨fun h => ?_, fun h => ?_, fun h r hr hri => ?_⟩
+  · rw [close_scope]
+    refine ⟨i, s, .buy, signedSum fills, p, hi, hm, ?_, hp, rfl⟩
+    rw [hpos, hnet, if_pos h]
+  · rw [close_scope]
+    have h0 : ¬ 0 < signedSum fills := by grind
+    refine ⟨i, s, .sell, -signedSum fills, p, hi, hm, ?_, hp, rfl⟩
+    rw [hpos, hnet, if_neg h0, if_pos h]
+  · rw [close_scope] at hr
+    obtain ⟨j, s', side, q, p', hj, _, hps, _, rfl⟩ := hr
+    simp only at hri
+    subst hri
+    rw [hi] at hj
+    cases hj
+    have h1 : ¬ 0 < signedSum fills := by grind
+    have h2 : ¬ signedSum fills < 0 := by grind
+    rw [hpos, hnet, if_neg h1, if_neg h2] at hps
+    cases hps
+
 -- the hypotheses are satisfiable and the arms are all reached: long 3, +2 → long 5; −5 → flat; −7 → short 2
 example : netAll [(.buy, 3), (.buy, 2)] none = some (.buy, 5) := by simp [netAll, netFill] <;> grind
 example : netAll [(.buy, 3), (.buy, 2), (.sell, 5)] none = none := by simp [netAll, netFill] <;> grind
